@@ -34,12 +34,15 @@ type dialScript struct {
 
 var verifDial *dialScript
 
+// set by an environment that answers dials itself (the event-sequence harnesses)
+var verifDialOverride func(ctx context.Context) (net.Conn, error)
+
 var errDialRefused = errors.New("connect: connection refused")
 var errDialCanceled = errors.New("dial: operation was canceled")
 
 func verifDialHook(ctx context.Context, addr string) (net.Conn, error) {
-	if verifSeqEnv != nil && verifDial == verifSeqEnv.dial {
-		return verifSeqEnv.dialHook(ctx)
+	if verifDialOverride != nil {
+		return verifDialOverride(ctx)
 	}
 	d := verifDial
 	if d == nil {
@@ -107,17 +110,17 @@ func (c *symConn) lastIsCease() bool {
 		return false
 	}
 	w := c.writes[len(c.writes)-1]
-	return verifAnd(len(w) >= 21, verifAnd(verifAt(w, 18) == notificationMessageType, verifAt(w, 19) == NOTIF_CODE_CEASE))
+	return verifAnd(len(w) >= 21, verifAnd(verifAt(w, 18) == verifMsgNotification, verifAt(w, 19) == NOTIF_CODE_CEASE))
 }
 
 // ceaseSent: a Cease NOTIFICATION was written, and nothing but UPDATEs of concurrent WriteUpdate callers after it
 func (c *symConn) ceaseSent() bool {
 	seen := false
 	for _, w := range c.writes {
-		isCease := len(w) >= 21 && verifAt(w, 18) == notificationMessageType && verifAt(w, 19) == NOTIF_CODE_CEASE
+		isCease := len(w) >= 21 && verifAt(w, 18) == verifMsgNotification && verifAt(w, 19) == NOTIF_CODE_CEASE
 		if isCease {
 			seen = true
-		} else if seen && verifAt(w, 18) != updateMessageType {
+		} else if seen && verifAt(w, 18) != verifMsgUpdate {
 			return false
 		}
 	}
@@ -125,7 +128,7 @@ func (c *symConn) ceaseSent() bool {
 }
 
 func (c *symConn) wroteOpenFirst() bool {
-	return len(c.writes) >= 1 && verifAt(c.writes[0], 18) == openMessageType
+	return len(c.writes) >= 1 && verifAt(c.writes[0], 18) == verifMsgOpen
 }
 
 // ---------- listener model ----------
